@@ -49,6 +49,7 @@ type Contract struct {
 	Tracks   []Track
 	Panics   []Clause // panics when <cond>
 	Asserts  []AtAssert
+	Snaps    []Track  // snapshot <name> after call <callee>
 	Params   []string // explicit parameter names (trusted specs for functions without source names)
 	Used     bool
 }
@@ -107,7 +108,7 @@ var clauseKeywords = map[string]bool{
 	"func": true, "fun": true, "pred": true, "requires": true, "ensures": true, "modifies": true, "pure": true,
 	"ghost": true, "loop": true, "nopanic": true, "trusted": true, "panics": true, "track": true, "global-invariant": true,
 	"monitor": true, "invariant": true, "transition": true, "lemma": true, "axiom": true, "inline": true, "assert": true,
-	"props": true, "params": true, "protects": true,
+	"props": true, "params": true, "protects": true, "snapshot": true,
 }
 
 type rawClause struct {
@@ -384,6 +385,13 @@ func (db *SpecDB) LoadSpecFile(path, pkgPath string) error {
 					return fmt.Errorf("%s:%d: %v", path, rc.line, err)
 				}
 				cur.Ghosts = append(cur.Ghosts, GhostDef{strings.TrimSpace(rc.rest[:i]), e})
+			case "snapshot":
+				// snapshot <name> after call <callee>
+				fs := strings.Fields(rc.rest)
+				if len(fs) != 4 || fs[1] != "after" || fs[2] != "call" {
+					return fmt.Errorf("%s:%d: snapshot needs '<name> after call <callee>'", path, rc.line)
+				}
+				cur.Snaps = append(cur.Snaps, Track{Callee: fs[3], Alias: fs[0]})
 			case "track":
 				fs := strings.Fields(rc.rest)
 				tr := Track{Callee: fs[0], Alias: fs[0]}
